@@ -1,3 +1,4 @@
 pub mod build;
+pub mod cc;
 pub mod dispatch;
 pub mod program;
